@@ -201,6 +201,16 @@ pub fn wake_counted(tid: usize, w: &Waker, by_ref: bool) {
         w.clone().wake();
     }
 }
+/// The accounting half of `wake_counted`, for wakes the code under test performs itself.
+pub fn note_wake(tid: usize) {
+    wwith(|wd| {
+        wd.gseq += 1;
+        let g = wd.gseq;
+        let t = wd.tasks.entry(tid).or_default();
+        t.last_wake_seq = g;
+        t.wakes += 1;
+    });
+}
 pub fn gseq_next() -> u64 {
     wwith(|w| {
         w.gseq += 1;
